@@ -302,7 +302,7 @@ impl Property for C20 {
         vec![("http", 4), ("websocket", 1)]
     }
     fn budget(&self) -> (u64, u64) {
-        (20_000, 600_000)
+        (250_000, 5_000_000)
     }
     fn rule(&self) -> &'static str {
         "bodies of 1-6 statements from {auth ok/bad, use-db ok / bad token / user token with read-only k* permission, get, get-safe, set, set-safe fresh/stale, remove, increment ok/non-numeric, keys, watch (later writes of the same request notify its own session), create-db, blank}, over keys incl. a $$ key, with or without trailing ';' and spaces around ';', sent as one HTTP request to the real http_ops worker loop (tiny_http facade) or as one WebSocket frame; the reference is the same command list executed one command at a time by a fresh direct session on a mirrored database set: entry i must equal what command i alone produces (first message, error text, or 'empty'), the entry count must equal the number of non-blank statements, both database sets must end equal (executed once each, in order), and afterwards no connection or watcher of the request's session is left. Non-trivial: a refused command precedes a successful one. distinct = distinct programs."
